@@ -117,7 +117,7 @@ def rule_builders(chk, prog):
       continue
     O, den = n
     arg = den.a[1][0] if den.a[1] else None
-    kw = dict(den.a[2])
+    kw = util.call_kwargs(den)
     axis = kw.get('axis', den.a[1][1] if len(den.a[1]) > 1 else None)
     chk.check(arg == O, rule, f'{q}: the denominator sums the very overlap matrix that is being normalised', sym.show(arg, maxdepth=3)[:160] if arg is not None else 'none', loc,
               'sum over the numerator', sym.show(arg, maxdepth=3)[:160] if arg is not None else 'none')
